@@ -44,6 +44,7 @@ MANIFEST = {
     "design_ref": "DESIGN.md section 3 (C10)",
 }
 _CORPUS: list[str] | None = None
+C10_MISTAKES = gen.MISTAKES[:14] + gen.MISTAKES[-3:]
 
 
 # ------------------------------------------------------------------------- child side
@@ -115,7 +116,7 @@ def run_program(ch: Choices, params: dict, name: str) -> dict:
     k = ch.draw(10, "has_mistake")
     mistake = None
     if k >= 3:
-        mistake = {"kind": ch.pick(gen.MISTAKES[:14], "mistake"), "k": ch.rng_int(2, 3, "k")}
+        mistake = {"kind": ch.pick(C10_MISTAKES, "mistake"), "k": ch.rng_int(2, 3, "k")}
     g = gen.ProgGen(ch, {"max_stmts": params.get("max_stmts", 12), "allow_capture": True})
     prog = g.module(mistake=mistake)
     obs = []
